@@ -266,6 +266,9 @@ impl<'a, T> ChordsV2<'a, T> {
                 }
             }
             drainq.extend(self.queue.drain(0..));
+            // The countdown of the scan that started the cool-down is stale now. Left in
+            // place, a later input that restores the remembered queue length would wait for it.
+            self.ticks_until_next_state_change = 0;
             return;
         }
         if self.ticks_until_next_state_change > 0
